@@ -536,7 +536,9 @@ func c04EntryClass(name string) string {
 // c04Case: one live session against a hostile peer (inside the simulator), and one batch of targets
 // with its alteration battery (real time, real goroutine, watchdog).
 func c04Case(w *Worker, i int) {
-	w.Exec(RunSpec{Scenario: "live", Index: i})
+	for k := 0; k < 12; k++ {
+		w.Exec(RunSpec{Scenario: "live", Index: i*12 + k})
+	}
 	T := NewTape(Mix(w.Job.Seed, "C04/targets", i))
 	targets := c04Targets(T)
 	ps := Mix(w.Job.Seed, "C04/plan", i)
